@@ -24,7 +24,7 @@ import tempfile
 
 V = os.path.dirname(os.path.dirname(os.path.abspath(__file__)))
 REPO = os.environ.get("BNPSA_REPO", "/repo")
-TRANSFORMS = ["identity", "rename", "tempret", "ifflip", "nodoc"]
+TRANSFORMS = ["identity", "rename", "tempret", "ifflip", "nodoc", "compvars", "elseify", "elimtemps", "guardswap"]
 SCOPES = (ast.FunctionDef, ast.AsyncFunctionDef, ast.Lambda, ast.ListComp, ast.SetComp, ast.DictComp, ast.GeneratorExp, ast.ClassDef)
 
 
@@ -235,6 +235,117 @@ class IfFlip(ast.NodeTransformer):
         return node
 
 
+class CompVars(ast.NodeTransformer):
+    """alpha-rename the variables bound by comprehensions (and lambda parameters)"""
+
+    def __init__(self):
+        self.maps = [{}]
+
+    def _comp(self, node):
+        first = node.generators[0]
+        first.iter = self.visit(first.iter)
+        bound = set()
+        for g in node.generators:
+            bound |= {x.id for x in ast.walk(g.target) if isinstance(x, ast.Name)}
+        m = dict(self.maps[-1])
+        m.update({b: b + "_cv" for b in bound})
+        self.maps.append(m)
+        first.target = self.visit(first.target)
+        first.ifs = [self.visit(i) for i in first.ifs]
+        for g in node.generators[1:]:
+            g.iter = self.visit(g.iter)
+            g.target = self.visit(g.target)
+            g.ifs = [self.visit(i) for i in g.ifs]
+        if isinstance(node, ast.DictComp):
+            node.key = self.visit(node.key)
+            node.value = self.visit(node.value)
+        else:
+            node.elt = self.visit(node.elt)
+        self.maps.pop()
+        return node
+    visit_ListComp = visit_SetComp = visit_DictComp = visit_GeneratorExp = _comp
+
+    def visit_Lambda(self, node):
+        a = node.args
+        a.defaults = [self.visit(d) for d in a.defaults]
+        names = [x.arg for x in a.posonlyargs + a.args]       # keyword-only / star args keep their names (may be passed by keyword)
+        if a.kwonlyargs or a.kwarg or a.vararg:
+            names = []
+        m = dict(self.maps[-1])
+        m.update({n: n + "_lp" for n in names})
+        for x in a.posonlyargs + a.args:
+            if x.arg in names:
+                x.arg = x.arg + "_lp"
+        self.maps.append(m)
+        node.body = self.visit(node.body)
+        self.maps.pop()
+        return node
+
+    def _fn(self, node):
+        # a nested function that rebinds a name hides the comprehension variable of an enclosing comprehension: cannot happen (functions are not
+        # defined inside comprehensions here); function scopes start with an empty map
+        self.maps.append({})
+        self.generic_visit(node)
+        self.maps.pop()
+        return node
+    visit_FunctionDef = visit_AsyncFunctionDef = _fn
+
+    def visit_NamedExpr(self, node):
+        node.value = self.visit(node.value)
+        return node
+
+    def visit_Name(self, node):
+        m = self.maps[-1].get(node.id)
+        if m:
+            node.id = m
+        return node
+
+
+def _terminates(stmts):
+    if not stmts:
+        return False
+    last = stmts[-1]
+    if isinstance(last, (ast.Return, ast.Raise, ast.Continue, ast.Break)):
+        return True
+    if isinstance(last, ast.If) and last.orelse:
+        return _terminates(last.body) and _terminates(last.orelse)
+    return False
+
+
+class Elseify(ast.NodeTransformer):
+    """`if c: ...return\n rest` -> `if c: ...return\n else: rest`"""
+
+    def _block(self, body):
+        body = [self.visit(s) for s in body]
+        for i, s in enumerate(body[:-1]):
+            if isinstance(s, ast.If) and not s.orelse and _terminates(s.body) and not any(isinstance(x, (ast.FunctionDef, ast.ClassDef, ast.Global, ast.Nonlocal)) for x in body[i + 1:]):
+                s.orelse = self._block(body[i + 1:])
+                return body[:i + 1]
+        return body
+
+    def generic_visit(self, node):
+        for f in ("body", "orelse", "finalbody"):
+            v = getattr(node, f, None)
+            if isinstance(v, list) and v and isinstance(v[0], ast.stmt):
+                setattr(node, f, self._block(v))
+        if isinstance(node, ast.Try):
+            for h in node.handlers:
+                h.body = self._block(h.body)
+        return node
+
+
+class ElimTemps(ast.NodeTransformer):
+    """inline locals that are assigned once and read once in the directly following statement (before any call) - the inverse of tempret"""
+
+    def visit_FunctionDef(self, node):
+        self.generic_visit(node)
+        sys.path.insert(0, V)
+        from bnpsa import normalize
+        normalize.inline_fresh_temps(node, [])
+        return node
+    visit_AsyncFunctionDef = visit_FunctionDef
+
+
 class NoDoc(ast.NodeTransformer):
     def visit_FunctionDef(self, node):
         self.generic_visit(node)
@@ -253,6 +364,18 @@ def transform_source(src: str, name: str) -> str:
         tree = IfFlip().visit(tree)
     elif name == "nodoc":
         tree = NoDoc().visit(tree)
+    elif name == "compvars":
+        tree = CompVars().visit(tree)
+    elif name == "elseify":
+        tree = Elseify().visit(tree)
+    elif name == "elimtemps":
+        tree = ElimTemps().visit(tree)
+    elif name == "guardswap":
+        sys.path.insert(0, V)
+        from bnpsa import normalize
+        g = normalize._GuardFirst()
+        g.always = True
+        tree = g.visit(tree)
     elif name != "identity":
         raise SystemExit(f"unknown transform {name}")
     ast.fix_missing_locations(tree)
